@@ -6,6 +6,8 @@ import (
 	"fmt"
 	"runtime"
 	"strings"
+	"sync"
+	"time"
 
 	"github.com/b2broker/simplefix-go/session"
 	fixgen "github.com/b2broker/simplefix-go/tests/fix44"
@@ -44,7 +46,7 @@ func idFor(c *vk.Ctx, i int) []byte {
 
 func main() {
 	c := vk.Init("C14")
-	c.Rule("TestReqID values: every single byte value except SOH (255), 40 decoys ('112=', '10=000', '35=A', '=', spaces, digits, NUL, high bytes, text resembling other fields), lengths up to 10000, random strings; each injected at every kind of position of a logged-on history (directly after logon, several in a row, between Heartbeats / application messages / rejected messages / local sends), both roles. Oracle per TestRequest step: exactly one message emitted in that step (so before any later reply), MsgType 0, its 112 value (reference tokenizer) byte-equal to the ID. distinct = distinct (ID bytes, role, context); non-trivial = all")
+	c.Rule("TestReqID values: every single byte value except SOH (255), 40 decoys ('112=', '10=000', '35=A', '=', spaces, digits, NUL, high bytes, text resembling other fields), lengths up to 10000, random strings; each injected at every kind of position of a logged-on history (directly after logon, several in a row, between Heartbeats / application messages / rejected messages / local sends), both roles; plus real-time sessions (N=1) in which the session's own TestRequest is pending when the peer's TestRequests arrive. Oracle per TestRequest step: exactly one message emitted in that step (so before any later reply), MsgType 0, its 112 value (reference tokenizer) byte-equal to the ID. distinct = distinct (ID bytes, role, context); non-trivial = all")
 	n := c.Pick(700, 12000)
 	vk.Parallel(n, runtime.NumCPU(), func(i int) {
 		r := c.Rand("c14", int64(i))
@@ -124,6 +126,62 @@ func main() {
 			}
 		}
 	})
+	// real time: the session's own TestRequest is pending (the peer was silent for N+1 s) when the peer's TestRequest arrives
+	nrt := c.Pick(4, 24)
+	var wg sync.WaitGroup
+	for i := 0; i < nrt; i++ {
+		wg.Add(1)
+		go func(i int) {
+			defer wg.Done()
+			role := rig.Role(i % 2)
+			desc := fmt.Sprintf("%s N=1: logon, 2.3 s of silence (the session sends its own TestRequest), then 2 TestRequests from the peer", role)
+			rg, err := rig.NewStepRig(rig.StepCfg{Role: role, HeartBtInt: 1, Limits: &session.IntLimits{Min: 1, Max: 60}})
+			if err != nil {
+				return
+			}
+			defer rg.Close()
+			p := rig.NewPeer()
+			if res := rg.Inbound(p.Logon(1, "0")); !res.Logged {
+				return
+			}
+			time.Sleep(2300*time.Millisecond + time.Duration(i*20)*time.Millisecond)
+			own := 0
+			for _, o := range rg.AllOuts() {
+				if o.Type == "1" {
+					own++
+				}
+			}
+			if own == 0 {
+				c.Count("realtime_scenarios_without_own_testrequest", 1)
+				return
+			}
+			for k := 0; k < 2; k++ {
+				id := []byte(fmt.Sprintf("PING=%d-%d", i, k))
+				res := rg.Inbound(p.Msg("1", fixref.Field{Tag: rig.TTestReqID, Val: id}))
+				if res.TimedOut {
+					return
+				}
+				var hb []rig.Out
+				for _, o := range res.Outs {
+					if o.Type == "0" {
+						if v, ok := fixref.Get(o.Fields, rig.TTestReqID); ok && bytes.Equal(v, id) {
+							hb = append(hb, o)
+						}
+					}
+				}
+				c.Eval(vk.Hash64(id, []byte(desc)), true)
+				c.Count("testrequests_while_own_testrequest_pending", 1)
+				if len(hb) != 1 {
+					var t []string
+					for _, o := range res.Outs {
+						t = append(t, o.Type)
+					}
+					c.Violate("C14/not-exactly-one-heartbeat/own-testrequest-pending", fmt.Sprintf("%s: TestRequest %q answered with %v", desc, id, t), map[string]interface{}{"scenario": desc})
+				}
+			}
+		}(i)
+	}
+	wg.Wait()
 	c.Finish()
 }
 
